@@ -20,7 +20,7 @@ def check(run):
     run.build_harness()
     run.tlc_mc("XState.tla", "MC_XState_crash.cfg" if quick else "MC_XState_crash_thorough.cfg", timeout=3000)
     plans = [dict(num=45, ops=18, window=1, driver_args=["-cuts"], batch=60)] if quick else \
-            [dict(num=500, ops=20, window=1, driver_args=["-cuts"], batch=100), dict(num=300, ops=24, window=0, maxb=9, driver_args=["-cuts"], batch=100)]
+            [dict(num=350, ops=20, window=1, driver_args=["-cuts"], batch=100), dict(num=200, ops=24, window=0, maxb=9, driver_args=["-cuts"], batch=100)]
     # blocks with 300 KB transactions on a 1 MB chain: however big a block, its effects and the pointer move are one write
     plans.append(dict(num=20 if quick else 200, ops=18, window=0, maxb=8, txs='{"b1", "b2", "b3", "s4", "t1", "t2", "p1", "p2"}', budget=8,
                       driver_args=["-cuts", "-maxmb", "1"], batch=60))
